@@ -55,3 +55,19 @@ def jobs(maxlines=40, chunk=0, opts=0, ppm=0, dirs=None, pairs=None, with_fontte
         for name, font, cps, rtl in fonttests():
             js.append({"font": os.path.join(F, font), "cps": cps, "dir": rtl, "opts": opts, "ppm": ppm, "id": "fonttest:" + name})
     return js
+
+
+def collision_jobs(tmp, n=40, opts=0, ppm=0, dirs=(0, 1)):
+    """Synthesised collision-enabled fonts (octaboxes with and without sub-boxes; fontgen/collgen.py), one text each."""
+    from fontgen import collgen
+    d = os.path.join(tmp, "collfonts")
+    os.makedirs(d, exist_ok=True)
+    out = []
+    for s in range(n):
+        p = os.path.join(d, "coll%d.ttf" % s)
+        font, cps, _ = collgen.font_and_text(s, subboxes=(s % 2 == 1))
+        if not os.path.exists(p):
+            open(p, "wb").write(font)
+        for dr in dirs:
+            out.append({"font": p, "cps": cps, "dir": dr, "opts": opts, "ppm": ppm, "id": "collfont%d:d%d" % (s, dr)})
+    return out
